@@ -26,3 +26,29 @@ package ipc
 //@
 //@ func (*listener).Listen$1
 //@   loop 1 ensures !called_since("loop1:head", "Handshake") && !called_since("loop1:head", "handshake") && !called_since("loop1:head", "Read") && !called_since("loop1:head", "ReadFull") && !called_since("loop1:head", "Wait")
+//@
+//@ func (*listener).SetOption
+//@   ensures n != mangos.OptionMaxRecvSize && n != OptionIpcSocketPermissions && n != OptionIpcSocketOwner && n != OptionIpcSocketGroup ==> result == mangos.ErrBadOption
+//@   ensures !isnil(result) ==> (result == mangos.ErrBadOption || result == mangos.ErrBadValue) && unchanged("call:Lock#1", l.maxRcvSize, l.owner, l.group, l.chown, l.mode, l.chmod)
+//@   ensures n == mangos.OptionMaxRecvSize ==> (isnil(result) <==> is_int(v))
+//@   ensures n == mangos.OptionMaxRecvSize && isnil(result) ==> l.maxRcvSize == int_of(v) && unchanged("call:Lock#1", l.owner, l.group, l.chown, l.mode, l.chmod)
+//@   ensures n == OptionIpcSocketOwner ==> (isnil(result) <==> is_int(v))
+//@   ensures n == OptionIpcSocketOwner && isnil(result) ==> l.owner == int_of(v) && l.chown && unchanged("call:Lock#1", l.maxRcvSize, l.group, l.mode, l.chmod)
+//@   ensures n == OptionIpcSocketGroup ==> (isnil(result) <==> is_int(v))
+//@   ensures n == OptionIpcSocketGroup && isnil(result) ==> l.group == int_of(v) && l.chown && unchanged("call:Lock#1", l.maxRcvSize, l.owner, l.mode, l.chmod)
+//@   ensures n == OptionIpcSocketPermissions && isnil(result) ==> l.chmod && l.mode >= 0 && l.mode <= 511 && unchanged("call:Lock#1", l.maxRcvSize, l.owner, l.group, l.chown)
+//@
+//@ func (*listener).GetOption
+//@   ensures n == mangos.OptionMaxRecvSize ==> isnil(result1) && result0 == iface(l.maxRcvSize)
+//@   ensures n != mangos.OptionMaxRecvSize ==> result1 == mangos.ErrBadOption && isnil(result0)
+//@
+//@ func (*dialer).SetOption
+//@   ensures n != mangos.OptionMaxRecvSize ==> result == mangos.ErrBadOption
+//@   ensures n == mangos.OptionMaxRecvSize ==> (isnil(result) <==> is_int(v))
+//@   ensures n == mangos.OptionMaxRecvSize && !isnil(result) ==> result == mangos.ErrBadValue
+//@   ensures n == mangos.OptionMaxRecvSize && isnil(result) ==> d.maxRcvSize == int_of(v)
+//@   ensures !isnil(result) ==> unchanged("call:Lock#1", d.maxRcvSize)
+//@
+//@ func (*dialer).GetOption
+//@   ensures n == mangos.OptionMaxRecvSize ==> isnil(result1) && result0 == iface(d.maxRcvSize)
+//@   ensures n != mangos.OptionMaxRecvSize ==> result1 == mangos.ErrBadOption && isnil(result0)
